@@ -662,6 +662,19 @@ def decision_facts(d):
         if f[0] == "variant" and f[2] in ("core::option::Option::Some", "core::option::Option::None"):
             other = "core::option::Option::None" if f[2].endswith("Some") else "core::option::Option::Some"
             more.append(("variant", f[1], other, not f[3]))
+    # `x.checked_sub(k)` (modelled at payload level as x − k) being Some ⇔ x ≥ k
+    for f in out + more:
+        if f[0] == "variant" and f[2] == "core::option::Option::Some":
+            t = _unmut(f[1])
+            if isinstance(t, tuple) and t and t[0] == "bin" and t[1] == "-" and isinstance(t[3], tuple) and t[3] and t[3][0] == "c" and t[3][1] >= 1:
+                k = t[3][1]
+                if f[3]:
+                    more.append(("rel", ">=", t[2], t[3]))
+                    more.append(("ne", t[2], 0))
+                else:
+                    more.append(("rel", "<", t[2], t[3]))
+                    if k == 1:
+                        more.append(("eq", t[2], 0))
     # `s.first()` / `s.last()` / `s.get(0)` (or its payload-level form s[0]) being Some ⇔ the sequence is not empty
     for f in out + more:
         if f[0] == "variant" and f[2] == "core::option::Option::Some":
